@@ -1265,6 +1265,8 @@ def _node_params(b):
         if s.startswith('&typst_syntax::SyntaxNode') or s.startswith('typst_syntax::ast::') or s.startswith('typst_syntax::LinkedNode') \
                 or s.startswith('&typst_syntax::LinkedNode'):
             out.add(i)
+        elif b.def_kind == 'Closure' and s.startswith('(') and re.search(r'[(, ]&?typst_syntax::(SyntaxNode|ast::\w+|LinkedNode)', s):
+            out.add(i)        # a closure invoked with tuples that hold a node (`with_position()`, `enumerate()`, `zip(..)` items)
     return out
 
 
